@@ -534,3 +534,137 @@ def hnames(p, h):
         if len(vals) == 1 and isinstance(vals[0], ast.Tuple):
             return [exc_name(x) for x in vals[0].elts]
     return handler_names(h)
+
+
+def elements_of(p, fn, expr, depth=4, _seen=None):
+    """flow-insensitive description of the members of a collection-valued expression inside fn:
+    'all:<src>' (every member of that collection), 'item:<src>' (one object), 'each:<elt>|<target>|<iter>' (comprehension).
+    A name contributes itself ('all:<name>') and whatever its local definitions / append / extend / add / update / augmented
+    assignments put into it; a loop variable contributes the members of the iterated expression."""
+    _seen = _seen if _seen is not None else set()
+    out = set()
+    if depth < 0 or expr is None:
+        return out
+    if isinstance(expr, ast.Starred):
+        return elements_of(p, fn, expr.value, depth, _seen)
+    if isinstance(expr, (ast.List, ast.Tuple, ast.Set)):
+        for e in expr.elts:
+            if isinstance(e, ast.Starred):
+                out |= elements_of(p, fn, e.value, depth - 1, _seen)
+            else:
+                out |= _item(p, fn, e, depth - 1, _seen)
+        return out
+    if isinstance(expr, ast.Call):
+        name = (dotted(expr.func) or "").split(".")[-1]
+        if name in ("list", "set", "tuple", "sorted", "frozenset", "reversed") and len(expr.args) == 1:
+            return elements_of(p, fn, expr.args[0], depth - 1, _seen)
+        if name == "chain":
+            for a in expr.args:
+                out |= elements_of(p, fn, a, depth - 1, _seen)
+            return out
+        if name == "copy" and isinstance(expr.func, ast.Attribute) and not expr.args:
+            return elements_of(p, fn, expr.func.value, depth - 1, _seen)
+        return {"all:" + src(expr)}
+    if isinstance(expr, ast.BinOp) and isinstance(expr.op, (ast.BitOr, ast.Add)):
+        return elements_of(p, fn, expr.left, depth, _seen) | elements_of(p, fn, expr.right, depth, _seen)
+    if isinstance(expr, (ast.ListComp, ast.SetComp, ast.GeneratorExp)) and len(expr.generators) == 1 and not expr.generators[0].ifs:
+        g = expr.generators[0]
+        if isinstance(expr.elt, ast.Name) and isinstance(g.target, ast.Name) and expr.elt.id == g.target.id:
+            return elements_of(p, fn, g.iter, depth - 1, _seen)
+        return {f"each:{src(expr.elt)}|{src(g.target)}|{src(g.iter)}"}
+    if isinstance(expr, ast.Name):
+        out.add("all:" + expr.id)
+        if expr.id in _seen or fn is None:
+            return out
+        _seen = _seen | {expr.id}
+        for n in walk_no_nested(fn):
+            if isinstance(n, ast.Assign):
+                for t in n.targets:
+                    if isinstance(t, ast.Name) and t.id == expr.id:
+                        out |= elements_of(p, fn, n.value, depth - 1, _seen)
+            elif isinstance(n, ast.AugAssign) and isinstance(n.target, ast.Name) and n.target.id == expr.id:
+                out |= elements_of(p, fn, n.value, depth - 1, _seen)
+            elif isinstance(n, ast.Call) and isinstance(n.func, ast.Attribute) and isinstance(n.func.value, ast.Name) and n.func.value.id == expr.id and n.args:
+                if n.func.attr in ("append", "add"):
+                    loop = _loop_binding(p, n, n.args[0])
+                    if loop is not None:
+                        out.add(f"each:{src(n.args[0])}|{src(loop.target)}|{src(loop.iter)}")
+                    else:
+                        out |= _item(p, fn, n.args[0], depth - 1, _seen)
+                elif n.func.attr in ("extend", "update"):
+                    for a in n.args:
+                        out |= elements_of(p, fn, a, depth - 1, _seen)
+        return out
+    return {"all:" + src(expr)}
+
+
+def _item(p, fn, e, depth, _seen):
+    out = {"item:" + src(e)}
+    if isinstance(e, ast.Name) and fn is not None:
+        for n in walk_no_nested(fn):
+            if isinstance(n, (ast.For, ast.AsyncFor)) and isinstance(n.target, ast.Name) and n.target.id == e.id:
+                out |= elements_of(p, fn, n.iter, depth, _seen)
+            elif isinstance(n, ast.Assign) and any(isinstance(t, ast.Name) and t.id == e.id for t in n.targets):
+                out.add("item:" + src(n.value))
+    return out
+
+
+def _loop_binding(p, call, item):
+    """the for loop whose variable `item` depends on, when `call` sits unconditionally in that loop's body (None otherwise)"""
+    names = {x.id for x in ast.walk(item) if isinstance(x, ast.Name)}
+    child, par = call, p.parent.get(call)
+    while par is not None and not isinstance(par, FuncT):
+        if isinstance(par, (ast.If, ast.Try, ast.While, ast.IfExp, ast.BoolOp)):
+            return None
+        if isinstance(par, (ast.For, ast.AsyncFor)):
+            tn = {x.id for x in ast.walk(par.target) if isinstance(x, ast.Name)}
+            if tn & names and not isinstance(item, ast.Name):
+                return par
+            return None
+        child, par = par, p.parent.get(par)
+    return None
+
+
+def thunk_call(p, fn, e):
+    """the call a zero-argument callable performs: `lambda: f(x)`, a local `def g(): return f(x)`, `functools.partial(f, x)`; None otherwise"""
+    if isinstance(e, ast.Lambda) and not (e.args.args or e.args.vararg or e.args.kwarg or e.args.kwonlyargs):
+        return e.body if isinstance(e.body, ast.Call) else None
+    if isinstance(e, ast.Name):
+        for n in ast.walk(fn):
+            if isinstance(n, FuncT) and n.name == e.id and n is not fn and not (n.args.args or n.args.vararg or n.args.kwarg or n.args.kwonlyargs):
+                body = [s for s in n.body if not (isinstance(s, ast.Expr) and isinstance(s.value, ast.Constant))]
+                if len(body) == 1 and isinstance(body[0], ast.Return):
+                    v = body[0].value
+                    if isinstance(n, ast.AsyncFunctionDef) and isinstance(v, ast.Await):
+                        v = v.value
+                    return v if isinstance(v, ast.Call) else None
+        d = unique_def(fn, e.id)
+        if d is not None and not isinstance(d, ast.Name):
+            return thunk_call(p, fn, d)
+    if isinstance(e, ast.Call) and (dotted(e.func) or "").split(".")[-1] == "partial" and e.args:
+        return ast.copy_location(ast.Call(func=e.args[0], args=list(e.args[1:]), keywords=list(e.keywords)), e)
+    return None
+
+
+def flatten_test(p, t, pol, fn):
+    """atomic (test, polarity) facts implied by `t` evaluating to `pol`: `not` folded, true conjunctions / false disjunctions split,
+    names with one definition expanded"""
+    out = []
+
+    def add(t, pol):
+        if isinstance(t, ast.UnaryOp) and isinstance(t.op, ast.Not):
+            add(t.operand, not pol)
+        elif isinstance(t, ast.BoolOp) and isinstance(t.op, ast.And) and pol:
+            for v in t.values:
+                add(v, True)
+        elif isinstance(t, ast.BoolOp) and isinstance(t.op, ast.Or) and not pol:
+            for v in t.values:
+                add(v, False)
+        else:
+            t2 = expand(p, t, fn, cond=True) if isinstance(t, ast.Name) else t
+            if t2 is not t:
+                add(t2, pol)
+            else:
+                out.append((t, pol))
+    add(t, pol)
+    return out
